@@ -92,7 +92,9 @@ impl<C: CT> View<C> {
     }
 }
 
-/// The reference authoriser.  `Err((family, why))`: family = "unauthorised" | "invalid".
+/// The reference authoriser.  `Err((family, why))`: family = "unauthorised" | "invalid" (the
+/// operation must be refused) or "either" (the property text does not decide: a manager creating
+/// its own, already existing group again - accepted or refused, both are fine).
 fn authorise<C: CT>(v: &View<C>, op: &Op<C>) -> Result<(), (&'static str, &'static str)> {
     let g = op.group;
     let author = ind(op.author);
@@ -103,6 +105,9 @@ fn authorise<C: CT>(v: &View<C>, op: &Op<C>) -> Result<(), (&'static str, &'stat
         GroupAction::Create { .. } => {
             if exists && !is_manager {
                 return Err(("unauthorised", "group-exists"));
+            }
+            if exists {
+                return Err(("either", "group-exists-author-is-manager"));
             }
             Ok(())
         }
@@ -173,15 +178,35 @@ fn introduced<C: CT>(h: &Hist<C>, mask: u32, extra: Option<&Op<C>>, g: Id, m: Gr
     (0..h.n()).any(|i| mask & (1 << i) != 0 && named(&h.ops[i].op)) || extra.map(named).unwrap_or(false)
 }
 
+/// Access level left in the (inactive) entry of `m` in group `g` of a real replica state.  The
+/// entry is not reachable through the public API (only active members are listed), so the state
+/// is moved through serde into the source-included copy of `state.rs` (see c32.rs), whose fields
+/// are visible.  Only used to name violation classes, never for a verdict.
+fn stale_level<C: CT>(y: &St<C>, g: Id, m: GroupMember<Id>) -> Option<u8> {
+    explorer::catch(|| {
+        let cs = y.inner.current_state();
+        let gs = cs.get(&g)?;
+        let bytes = p2panda_core::cbor::encode_cbor(gs).ok()?;
+        let inc: crate::c32::state::GroupMembersState<GroupMember<Id>, C> = p2panda_core::cbor::decode_cbor(&bytes[..]).ok()?;
+        inc.members.get(&m).map(|e| level_no(&e.access.level))
+    })
+    .ok()
+    .flatten()
+}
+
 /// Class of the target in the state at the dependencies (part of the violation key, so that two
 /// different defects of the same action get different keys).
-fn target_class<C: CT>(v: &View<C>, h: &Hist<C>, mask: u32, op: &Op<C>) -> &'static str {
+fn target_class<C: CT>(v: &View<C>, y_deps: &St<C>, h: &Hist<C>, mask: u32, op: &Op<C>) -> &'static str {
     let Some(m) = target_of(&op.action) else { return "-" };
     match v.find(op.group, m) {
         Some(a) if a.is_manage() => "target-manager",
         Some(a) if a.is_pull() => "target-pull",
         Some(_) => "target-member",
-        None if introduced(h, mask, None, op.group, m) => "target-removed",
+        None if introduced(h, mask, None, op.group, m) => match stale_level(y_deps, op.group, m) {
+            Some(MANAGE) => "target-removed-manager",
+            Some(PULL) => "target-removed-pull",
+            _ => "target-removed-member",
+        },
         None => "target-unknown",
     }
 }
@@ -273,7 +298,7 @@ fn attempt_all<C: CT>(cx: &Ctx<C>, node: &Node<C>, acc: &mut Accu, want_children
     let expand_children = want_children && h.n() < cx.part.max_len;
     let mut children = vec![];
 
-    for &(dmask, _, ref dview) in &node.reps {
+    for &(dmask, ref y_deps, ref dview) in &node.reps {
         if h.heads(dmask).len() > cx.part.max_heads {
             continue;
         }
@@ -311,7 +336,14 @@ fn attempt_all<C: CT>(cx: &Ctx<C>, node: &Node<C>, acc: &mut Accu, want_children
                 }
                 let _ = why;
             }
-            match process(y_full.clone(), op) {
+            let result = process(y_full.clone(), op);
+            // "either": whatever the code decides is what the reference expects
+            let expected = match expected {
+                Err(("either", _)) if matches!(result, Proc::Ok(_)) => Ok(()),
+                Err(("either", why)) => Err(("invalid", why)),
+                e => e,
+            };
+            match result {
                 Proc::Panic(p) => {
                     let why = match expected {
                         Ok(()) => "authorised-operation",
@@ -337,7 +369,7 @@ fn attempt_all<C: CT>(cx: &Ctx<C>, node: &Node<C>, acc: &mut Accu, want_children
                 Proc::Ok(y2) => match expected {
                     Err((fam, why)) => {
                         acc.outcomes.insert(h64(&(act, why, "accepted")));
-                        let tc = target_class(dview, h, dmask, op);
+                        let tc = target_class(dview, y_deps, h, dmask, op);
                         // unauthorised: the class of the target tells defects of one action apart
                         // (author-not-member / author-not-manager is reported in the text only)
                         let key = if tc == "-" {
@@ -563,7 +595,7 @@ pub fn parts(thorough: bool, conditioned: bool) -> Vec<Part> {
         max_heads: 2,
         canonical: thorough,
     });
-    if thorough {
+    {
         v.push(Part {
             name: "nested",
             alpha: AlphaCfg {
@@ -578,9 +610,9 @@ pub fn parts(thorough: bool, conditioned: bool) -> Vec<Part> {
                 subgroups: true,
                 remove: true,
             },
-            max_len: 4,
+            max_len: if thorough { 4 } else { 3 },
             max_heads: 2,
-            canonical: true,
+            canonical: thorough,
         });
     }
     v
